@@ -92,6 +92,47 @@ Sane(s) ==
 
 StateEvents == {"BeginBlock", "DeliverTx", "EndBlock", "Commit", "CheckTx", "Restart"}
 
+\* Antecedent witnesses: which situations the property clauses speak about did this step exhibit?  (Vacuity control:
+\* the checks require the situations their property is about to occur in what they explored.)
+Witness(e, pre, post) ==
+  IF e.ev = "BeginBlock" THEN
+      LET named == {e.evidence[i].v : i \in 1..Len(e.evidence)} IN
+      (IF named \cap DOMAIN pre.delegs # {} THEN {"evidence against a bonded validator"} ELSE {})
+      \cup (IF named \ DOMAIN pre.delegs # {} THEN {"evidence against an unknown / unbonded address"} ELSE {})
+      \cup (IF Len(e.evidence) >= 2 THEN {"several pieces of evidence in one block"} ELSE {})
+      \cup (IF \E p \in DOMAIN pre.props : named \cap DOMAIN pre.props[p].voters # {} THEN {"evidence against a voter of an open proposal"} ELSE {})
+      \cup (IF \E i \in 1..Len(e.votes) : ~e.votes[i].signed THEN {"absent validator"} ELSE {})
+      \cup (IF \E d \in DOMAIN pre.delegs : d \notin DOMAIN post.delegs THEN {"validator jailed for downtime (all stake unbonding)"} ELSE {})
+      \cup (IF \E d \in DOMAIN pre.delegs \cap DOMAIN post.delegs : Len(post.delegs[d].stakes) < Len(pre.delegs[d].stakes)
+            THEN {"slashing forfeits a stake too small to be cut"} ELSE {})
+      \cup (IF post.rewards # pre.rewards THEN {"rewards issued"} ELSE {})
+  ELSE IF e.ev = "DeliverTx" /\ IsTx(e) THEN
+      LET tx == e.tx IN
+      {tx.type \o (IF e.resp.ok THEN " transaction succeeds" ELSE " transaction fails")}
+      \cup (IF e.resp.ok /\ tx.type = "unstaking" /\ tx.to \in DOMAIN pre.delegs /\ tx.to \notin DOMAIN post.delegs
+                /\ Len(pre.delegs[tx.to].stakes) >= 2 THEN {"a validator's own unstaking releases its delegators"} ELSE {})
+      \cup (IF e.resp.ok /\ tx.type = "staking" /\ tx.to \notin DOMAIN pre.delegs THEN {"a new delegatee is created"} ELSE {})
+      \cup (IF e.resp.ok /\ tx.type = "staking" /\ tx.to # tx.from THEN {"delegation to another account"} ELSE {})
+      \cup (IF e.resp.ok /\ tx.type = "voting" /\ tx.payload.prop \in DOMAIN pre.props
+                /\ tx.from \in DOMAIN pre.props[tx.payload.prop].voters /\ pre.props[tx.payload.prop].voters[tx.from].choice >= 0
+            THEN {"re-vote"} ELSE {})
+      \cup (IF e.resp.ok /\ tx.type = "transfer" /\ tx.to \notin LiveAccts(pre) THEN {"transfer creates an account"} ELSE {})
+      \cup (IF EvmTx(pre, tx) THEN {IF e.resp.ok THEN "contract execution succeeds" ELSE "contract execution fails"} ELSE {})
+      \cup (IF ~e.resp.ok /\ pre.vol.limiter.on /\ tx.type \in {"staking", "unstaking"} THEN {"staking change refused while the stake limiter is active"} ELSE {})
+  ELSE IF e.ev = "EndBlock" THEN
+      (IF \E x \in SeqSet(pre.frozen) : ~\E y \in SeqSet(post.frozen) : y.key = x.key THEN {"matured unbonding stake refunded"} ELSE {})
+      \cup (IF \E id \in DOMAIN post.fprops : id \notin DOMAIN pre.fprops THEN {"proposal adopted"} ELSE {})
+      \cup (IF \E id \in DOMAIN pre.props : id \notin DOMAIN post.props /\ id \notin DOMAIN post.fprops THEN {"proposal dropped for lack of majority"} ELSE {})
+      \cup (IF post.govPending.some /\ ~pre.govPending.some THEN {"adopted parameters applied"} ELSE {})
+      \cup (IF e.resp.valUpdates # <<>> THEN {"validator set changes"} ELSE {})
+      \cup (IF \E i \in 1..Len(e.resp.valUpdates) : e.resp.valUpdates[i].pow = 0 THEN {"validator removed from the set"} ELSE {})
+      \cup (IF pre.feeSum # <<>> THEN {"block with fees"} ELSE {})
+  ELSE IF e.ev = "Commit" THEN
+      (IF post.gov # pre.gov THEN {"parameters switch at commit"} ELSE {})
+  ELSE IF e.ev = "CheckTx" THEN {IF e.resp.ok THEN "mempool check accepts" ELSE "mempool check refuses"}
+  ELSE IF e.ev = "Restart" THEN {"process restart"}
+  ELSE {}
+
 \* all clauses of all properties violated by one observed step
 Checks(e, pre, post, mon) ==
   C02(e, pre, post, mon) \cup C03(e, pre, post) \cup C04(e, pre, post, mon) \cup C05(e, pre, post)
